@@ -23,7 +23,7 @@ CLAIMED = {
             "Trusted: the Go race detector (happens-before based: it reports races that the executed schedule exposes, schedules beyond the bound and code the scenarios never run are not covered); simnet's real mutex stands for the kernel's socket synchronisation; no-op OTel providers. Pool scenarios are covered with C11's harness."),
     "C02": ("exploration", "DESIGN.md §4 C02",
             "bounded-exhaustive enumeration of query shapes x compression x revision; each case executes the real Connect + Do under the controlled scheduler (default schedule) and the recorded client bytes are compared with the independent reference encoding",
-            "All queries with at most 2 (thorough 3) fields deviating from a base query over per-field alphabets (input columns of 32 types, sent at once or streamed in two rounds, and two pseudo-random blocks of 190-320 KB) x 5 compression settings at the newest revision, and all queries with at most 1 deviation x every revision of the threshold-neighbour set from 54420 x {Disabled, LZ4}: the Query packet must equal the reference encoding byte for byte, every block must be exactly one Data packet (one checksummed frame iff compression is on) that the reference decoder reads back to the column contents, and nothing else may be written.",
+            "All queries with at most 2 (thorough 4) fields deviating from a base query over per-field alphabets (input columns of 32 types, sent at once or streamed in two rounds, and two pseudo-random blocks of 190-320 KB) x 5 compression settings at the newest revision, and all queries with at most 1 deviation x every revision of the threshold-neighbour set from 54420 x {Disabled, LZ4}: the Query packet must equal the reference encoding byte for byte, every block must be exactly one Data packet (one checksummed frame iff compression is on) that the reference decoder reads back to the column contents, and nothing else may be written.",
             "Trusted: refwire/refcol (written from the protocol description, independent of proto/compress), city/lz4/zstd libraries for frames. Client-info fields the caller does not control (client name, version) are taken from the hello the same client sent; the patch number is not compared."),
     "C03": ("exploration", "DESIGN.md §4 C03",
             "bounded-exhaustive enumeration of server packet scripts; each case executes the real client against the scripted reference peer and is compared with a reference interpreter of the specified receive loop",
@@ -43,7 +43,7 @@ CLAIMED = {
             "Trusted: refwire hello model (fields gated on min of both revisions, as real servers do)."),
     "C01": ("exploration", "DESIGN.md §4 C01, §2 E3/E4/E5",
             "bounded-exhaustive enumeration of (column composition, value sequence, revision, buffer state) with three independent decoders (typed, inferred, reference model) as oracle, executed in the default and the purego build with transcript comparison",
-            "Every composition of the generated registry (45 base columns under Array / Nullable / LowCardinality / Map / Tuple to depth 2: ~1000 typed constructors) x all value sequences of length <= 2 (thorough 3) over per-type boundary alphabets x 3 revisions x 3 buffer states, plus dictionary sizes around 255 / 65535, strings around the varint boundaries and around the 1 MiB allocation step (four carriers, fresh and reused targets), the same contents as a reference server writes them (wider LowCardinality keys) and under the server's spellings of the type (Decimal(P, S), explicit time zones). Each case must decode to the appended values through a fresh typed column, through Results.Auto where the type is inferable and through the reference codec (exact consumption), must not depend on the buffer's prior contents, must re-encode identically and must equal the WriteBlock path; both builds must agree.",
+            "Every composition of the generated registry (45 base columns under Array / Nullable / LowCardinality / Map / Tuple to depth 2: ~1000 typed constructors) x all value sequences of length <= 2 (thorough 4; 5 for the base columns) over per-type boundary alphabets x 3 revisions x 3 buffer states, plus dictionary sizes around 255 / 65535, strings around the varint boundaries and around the 1 MiB allocation step (four carriers, fresh and reused targets), the same contents as a reference server writes them (wider LowCardinality keys) and under the server's spellings of the type (Decimal(P, S), explicit time zones). Each case must decode to the appended values through a fresh typed column, through Results.Auto where the type is inferable and through the reference codec (exact consumption), must not depend on the buffer's prior contents, must re-encode identically and must equal the WriteBlock path; both builds must agree.",
             "Trusted: refcol (reference codec written from the format description) and the reflection glue mapping Go values to canonical wire values (its date arithmetic is independent of the library's). LowCardinality(Nullable(T)) is compared only against the library's own decoders (its library representation is not the server's). Depth-3 compositions are not generated."),
     "C05": ("fault_enumeration", "DESIGN.md §4 C05",
             "exhaustive enumeration of payload lengths x kinds x methods, frame sequences x read sizes, every single-byte alteration of representative frames, out-of-range size fields, and an explicit-state search over append-frame / corrupt-frame / read histories on one reader",
